@@ -401,6 +401,8 @@ pub struct TwinViews {
     pub go: GraphView,
     /// U node id -> O node id
     pub map: Vec<Option<usize>>,
+    /// U nodes whose image belongs to a graph that no longer exists
+    pub dead: Vec<usize>,
 }
 
 pub fn views(t: &Twin) -> Result<TwinViews, String> {
@@ -409,15 +411,22 @@ pub fn views(t: &Twin) -> Result<TwinViews, String> {
     let gu = GraphView::new(&mu)?;
     let go = GraphView::new(&mo)?;
     let mut map = vec![None; gu.nodes.len()];
+    let mut dead: Vec<usize> = vec![];
     for (i, n) in gu.nodes.iter().enumerate() {
         if t.mapping.contains_node(&n.node) {
             let m = t.mapping.get_node(&n.node);
-            if m.get_graph() == mo {
-                map[i] = Some(m.get_id() as usize);
+            // the image must be a node of a live graph (Node::get_graph panics for a node whose graph was dropped)
+            match guarded(|| m.get_graph()) {
+                Ok(g) => {
+                    if g == mo {
+                        map[i] = Some(m.get_id() as usize);
+                    }
+                }
+                Err(_) => dead.push(i),
             }
         }
     }
-    Ok(TwinViews { gu, go, map })
+    Ok(TwinViews { gu, go, map, dead })
 }
 
 /// Static C04 checks on (U, O, mapping).
@@ -543,6 +552,13 @@ pub fn cone_of(gv: &GraphView, root: usize) -> BTreeSet<usize> {
 
 /// Static C06 interface checks.
 pub fn c06_static(t: &Twin, tv: &TwinViews) -> Option<Violation> {
+    // every node the mapping still maps goes to a live node of the optimised graph
+    if let Some(i) = tv.dead.first() {
+        return Some(Violation {
+            class: "mapped-to-dead-node".into(),
+            detail: format!("original node {} ({}) is mapped to a node of a graph that no longer exists ({} such nodes): the mapping keeps images of an intermediate pass", i, tv.gu.nodes[*i].op, tv.dead.len()),
+        });
+    }
     // inputs preserved: number, order, type, name
     if tv.gu.inputs.len() != tv.go.inputs.len() {
         return Some(Violation { class: "inputs-changed".into(), detail: format!("{} input nodes before, {} after optimisation", tv.gu.inputs.len(), tv.go.inputs.len()) });
@@ -793,6 +809,13 @@ pub fn check_case(case: &Case, kind: &str, run_seed: u64, which: &str, stats: &m
         }
     };
     let tv = views(&twin)?;
+    if (which == "C06" || which == "both") && tv.gu.inputs.len() != case.inputs.len() {
+        // the optimisation rounds inside the compiler pipeline already lost (or invented) an input node
+        return Ok(Some(Violation {
+            class: "inputs-changed".into(),
+            detail: format!("the program has {} inputs, the graph handed to the last optimisation round has {} input nodes", case.inputs.len(), tv.gu.inputs.len()),
+        }));
+    }
     if std::env::var("VERIF_DEBUG").is_ok() {
         for (i, n) in tv.gu.nodes.iter().enumerate() {
             eprintln!("U n{} {} deps {:?} sends {:?} -> {:?}", i, n.op_tag().chars().take(50).collect::<String>(), n.deps, n.sends, tv.map[i]);
@@ -917,6 +940,18 @@ pub fn gen_opt_case(rng: &mut Rng, idx: usize, heavy: bool) -> (Case, &'static s
             cfg.allow_helpers = true;
         }
         if let Some(mut case) = gen_case(&cfg, rng) {
+            // named inputs (the optimiser promises to keep every input with its name) and a few other named nodes
+            {
+                let g = case.prog.main_mut();
+                let named: BTreeSet<usize> = g.node_names.iter().map(|(i, _)| *i).collect();
+                for i in 0..g.steps.len() {
+                    let is_input = matches!(g.steps[i].op, Operation::Input(_));
+                    let is_call = matches!(g.steps[i].op, Operation::Call | Operation::Iterate);
+                    if !named.contains(&i) && !is_call && ((is_input && rng.chance(2, 3)) || rng.chance(1, 12)) {
+                        g.node_names.push((i, format!("nm{}", i)));
+                    }
+                }
+            }
             if kind == "plain" {
                 decorate_helpers(&mut case.prog, rng);
                 decorate(&mut case.prog, rng);
